@@ -94,8 +94,21 @@ def _classes():
         def _Node__post_assign_children(self, new_children):
             Faults.post()
 
-    _CLASSES.update(Faults=Faults, FBase=FBase, FNode=FNode)
+    class FNodeEq(FNode):
+        """a user subclass with value semantics: nodes compare (and hash) by name.  The library's own
+        links and checks work on identity, so nothing may depend on == between distinct nodes."""
+        def __eq__(self, other):
+            return isinstance(other, Node) and other.node_name == self.node_name
+
+        def __hash__(self):
+            return hash(self.node_name)
+
+    _CLASSES.update(Faults=Faults, FBase=FBase, FNode=FNode, FNodeEq=FNodeEq)
     return _CLASSES
+
+
+def _ncls(cl, case):
+    return cl["FNodeEq"] if case.get("eq") else cl["FNode"]
 
 
 class Junk:
@@ -191,7 +204,7 @@ def apply_op(cl, nodes, op):
         case = cl["case"]
         try:
             if case["cls"] == "Node":
-                nodes[i] = cl["FNode"](case["names"][i], sep=case["seps"][i], **kwargs)
+                nodes[i] = _ncls(cl, case)(case["names"][i], sep=case["seps"][i], **kwargs)
             else:
                 nodes[i] = cl["FBase"](**kwargs)
         finally:
@@ -213,7 +226,7 @@ def apply_op(cl, nodes, op):
                 if nodes[i] is None:       # nothing linked: the object is gone, node i is still fresh
                     F.queue = []
                     F.pending = False
-                    nodes[i] = cl["FNode"](case["names"][i], sep=case["seps"][i]) if case["cls"] == "Node" else cl["FBase"]()
+                    nodes[i] = _ncls(cl, case)(case["names"][i], sep=case["seps"][i]) if case["cls"] == "Node" else cl["FBase"]()
             F.nodes = nodes
     else:
         raise ValueError(k)
@@ -226,7 +239,7 @@ def run_history(case, with_final=True):
     cl["Faults"].pending = False
     lazy = {op[1] for op in case["ops"] if op[0] == "Construct"}
     if case["cls"] == "Node":
-        nodes = [None if i in lazy else cl["FNode"](case["names"][i], sep=case["seps"][i]) for i in range(case["n"])]
+        nodes = [None if i in lazy else _ncls(cl, case)(case["names"][i], sep=case["seps"][i]) for i in range(case["n"])]
     else:
         nodes = [None if i in lazy else cl["FBase"]() for i in range(case["n"])]
     cl["case"] = case
@@ -245,7 +258,7 @@ def run_history(case, with_final=True):
         trace.append([_links(nodes), code])
     for i in range(len(nodes)):
         if nodes[i] is None:
-            nodes[i] = cl["FNode"](case["names"][i], sep=case["seps"][i]) if case["cls"] == "Node" else cl["FBase"]()
+            nodes[i] = _ncls(cl, case)(case["names"][i], sep=case["seps"][i]) if case["cls"] == "Node" else cl["FBase"]()
     final = []
     if case["cls"] == "Node" and with_final:
         for n in nodes:
@@ -760,6 +773,13 @@ def generate(prop, rng, tier):
     ir = {"C01": 0.2, "C02": 0.25, "C03": 0.1, "C20": 0.0}[prop]
     for i in range(count):
         cls = "Node" if prop == "C03" else None
+        if prop == "C20" and rng.random() < 0.15:
+            # a user subclass whose nodes compare by name (value semantics): valid histories only
+            c = gen_case(rng, prop, cls="Node", fault_rate=0.0, invalid_rate=0.0)
+            c["eq"] = True
+            c["stratum"] = "eq-" + c["stratum"]
+            yield f"NodeEq/{c['stratum']}", c
+            continue
         c = gen_case(rng, prop, cls=cls, fault_rate=fr, invalid_rate=ir)
         yield f"{c['cls']}/{c['stratum']}", c
 
